@@ -51,17 +51,22 @@ RuleSafe(env, kind, a) ==
     /\ ~Forbidden(kind, a)
     /\ ~(env = "immutable" /\ MutatorAttr(kind, a))
 
-(* C18: callables are records [id, unsafe, alters, name, denied] describing THE OBJECT
-   THE TEMPLATE CALLS (its own unsafe_callable / alters_data marks, its name, whether the
-   application put this very object on a deny list) -- not whatever it wraps or is
-   wrapped by.  A subclass policy may reject more: "denyname" = an overridden
-   is_safe_callable that rejects by name, "denyobj" = one that rejects by identity *)
+(* C18: callables are records [id, unsafe, alters, name, denied, recv] describing THE OBJECT
+   THE TEMPLATE CALLS AS IT IS WHEN IT IS CALLED (its own unsafe_callable / alters_data
+   marks, its name, whether the application put this very object on a deny list, whether
+   it is a method bound to a receiver the application has frozen) -- not whatever it wraps
+   or is wrapped by, not what it was when it was called before, not what another object
+   bound to the same function is, and not the name of the template variable that holds it.
+   A subclass policy may reject more: "denyname" = an overridden is_safe_callable that
+   rejects by name, "denyobj" = one that rejects by identity, "denyrecv" = one that rejects
+   the methods of frozen receivers *)
 DeniedNames == {"denied"}
 UnsafeCallable(policy, f) ==
     \/ f.unsafe
     \/ f.alters
     \/ (policy = "denyname" /\ f.name \in DeniedNames)
     \/ (policy = "denyobj" /\ f.denied)
+    \/ (policy = "denyrecv" /\ f.recv)
 
 (* -- OPERATIONAL LAYER: transcription of jinja2/sandbox.py -------------------- *)
 (* _mutable_spec, row by row (as of commit f0317ed, which added intersection_update) *)
